@@ -428,6 +428,11 @@ pub fn exec(ctx: &mut Ctx, op: &str, p: &mut Toks) -> String {
                 ctx.oracle(ok, "nested-elementwise", "add / subtract / multiply on nested lists must be the element-wise IEEE result on every member, shapes unchanged",
                     format!("{} on lists of {} tensors, first {}", which, k, a.first().map(qt).unwrap_or_default()), res.as_ref().map(|r| r.iter().map(rt).collect::<Vec<_>>().join(" ")).unwrap_or("panic".into()), "member-wise result".into());
             }
+            // lists of different lengths (or with a member of another shape) differ in shape: refused
+            if k != k2 || a.iter().zip(b.iter()).any(|(x, y)| x.shape != y.shape) {
+                ctx.oracle(res.is_none(), "nested-shape-mismatch-accepted", "operands whose shapes differ must be refused (nested lists: another number of members, or a member of another shape)",
+                    format!("{} on lists of {} and {} tensors", which, k, k2), res.as_ref().map(|r| r.iter().map(rt).collect::<Vec<_>>().join(" ")).unwrap_or("refused".into()), "refused".into());
+            }
             match res {
                 Some(r) => format!("ok {}", r.iter().map(rt).collect::<Vec<_>>().join(" ")),
                 None => "err shape".into(),
